@@ -169,6 +169,15 @@ pub(crate) struct VerifFenScan {
 
 SLICES = [
     {
+        "name": "verif_pgn_step",
+        "file": "chess/mod.rs",
+        "within": r"^\s*pub fn get_pgn\(&self\) -> String",
+        "header": "impl Game { pub(crate) fn verif_pgn_step(i: usize, _move: &String, s: &mut String)",
+        "regions": [{"start": r"^\s*for \(i, _move\) in moves\.iter\(\)\.enumerate\(\) \{", "end": ("block",), "inner": True}],
+        "post": "}",
+        "drops": "the collect() of the per-move texts (Move::pgn_notation, C20's own contract), String::new(), the loop header",
+    },
+    {
         "name": "verif_fen_rank",
         "file": "chess/mod.rs",
         "within": r"^\s*pub fn fen\(&self\) -> String",
@@ -197,6 +206,15 @@ SLICES = [
         "regions": [{"start": r"^\s*for character in pieces\.chars\(\) \{", "end": ("block",), "inner": True}],
         "post": "}\n*st = VerifFenScan { row, col, hash, score, board, past_scores, past_hashes, white_king_pos, black_king_pos };\nOk(()) }",
         "drops": "split_ascii_whitespace, the declarations before the loop, the `for character in pieces.chars()` header, the `row != 0 || col != 8` test after it",
+    },
+    {
+        "name": "verif_fen_board_end",
+        "file": "chess/mod.rs",
+        "within": r"^\s*pub fn new\(fen: &str\)",
+        "header": "impl Game { pub(crate) fn verif_fen_board_end(row: i8, col: i8) -> anyhow::Result<()>",
+        "regions": [{"start": r"^\s*if row != 0", "end": ("block",)}],
+        "post": "Ok(()) }",
+        "drops": "nothing of its own: the test that follows the scanner loop",
     },
     {
         "name": "verif_fen_side",
@@ -266,6 +284,24 @@ SLICES = [
         "regions": [{"start": r"^\s*for col in 0\.\.8 \{", "end": ("block",), "inner": True}],
         "post": "}",
         "drops": "moves.clear(), the king_exists early return, the closure definition, the two `for row/col in 0..8` headers",
+    },
+    {
+        "name": "verif_gen_block",
+        "file": "chess/mod.rs",
+        "within": r"^\s*pub fn get_moves\(",
+        "header": "impl Game { pub(crate) fn verif_gen_block(&mut self, mut push: impl FnMut(Move))",
+        "regions": [{"start": r"^\s*for row in 0\.\.8 \{", "end": ("block",)}],
+        "post": "}",
+        "drops": "moves.clear(), the king_exists early return, the closure definition (push_unchecked into the 256-slot buffer)",
+    },
+    {
+        "name": "verif_filter_block",
+        "file": "chess/mod.rs",
+        "within": r"^\s*pub fn get_moves\(",
+        "header": "impl Game { pub(crate) fn verif_filter_block(&mut self, moves: &mut ArrayVec<Move, 256>, verify_king: bool)",
+        "regions": [{"start": r"^\s*if verify_king \{", "end": ("block",)}],
+        "post": "}",
+        "drops": "the generation phase before it",
     },
     {
         "name": "verif_filter_body",
